@@ -13,6 +13,7 @@ import os
 import random
 import subprocess
 import vlib
+import c01
 import planrun
 from vlib import Check, run_tlc, build_harness, validate_trace, FrameworkError, WORK, log, Graph
 
@@ -118,7 +119,8 @@ def run(tier):
             W, H, obst = rng.choice(MAPS)
             jid += 1
             jobs.append({"id": jid, "planner": p["name"], "W": W, "H": H, "obst": sorted(set(obst)),
-                         "seed": rng.randrange(1, 1 << 30), "thr": rng.choice([0.0, 0.0, 0.5]), "ops": h})
+                         "seed": rng.randrange(1, 1 << 30), "thr": rng.choice([0.0, 0.0, 0.5]), "ops": h,
+                         "params": c01.pick_params(p, rng, prob=0.6)})
     rng.shuffle(jobs)
     jpath = os.path.join(WORK, "c03-jobs.ndjson")
     vlib.write_ndjson(jpath, jobs)
